@@ -2,7 +2,8 @@
 from harness import gen_loop, spec_loop
 
 MODEL = 'loop'
-RULE = ('corpus, then seeded random scenarios: 1-3 world handles (1-3 processors each: plain, '
+RULE = ('corpus, then seeded random scenarios (45 % of them with the Python protocol dressing `identity`: distinct '
+        'handle objects that compare equal and hash alike or are unhashable, falsy handles and falsy worlds): 1-3 world handles (1-3 processors each: plain, '
         'OnUpdateProcessor, CoroutineProcessor; 0-2 load-time events), optional pre-loading, an initial '
         'loop.switch, 1-3 start() calls of 1-8 frames in which any processor of any frame may request '
         'switch()/raise SwitchWorld with every clear flag combination (also to the current handle), call '
